@@ -1,5 +1,6 @@
 import Pyxv.Model.Xml
 import Pyxv.Generated.Tables
+import Pyxv.Model.Rows
 /-!
 # Document assembly: `Survey.xml()`, `get_nsmap`, `xml_model`, `xml_instance`
 
@@ -257,7 +258,9 @@ mutual
 /-- every namespace declaration of the document is legal -/
 def declsOk : Node → Bool
   | .text _ _ => true
-  | .elem _ attrs kids => attrs.all declOk && declsOkKids kids
+  | .elem t attrs kids =>
+    -- "Element names MUST NOT have the prefix xmlns" (Namespaces in XML 1.0 §3)
+    (splitQName t).1 != some "xmlns".toList && attrs.all declOk && declsOkKids kids
 def declsOkKids : List Node → Bool
   | [] => true
   | k :: ks => declsOk k && declsOkKids ks
@@ -268,6 +271,44 @@ def holds (text fid : Str) : Bool :=
   match parseDoc text with
   | some n => declsOk n && prefixesBound [] n && Skeleton n fid
   | none => false
+
+/-! ## `validate_xml_document` (utils.py, added by the repair of F1-F4): the last step of `Survey.xml()` -/
+
+/-- `name.partition(":")`: the part before the first colon, and whether there is a colon -/
+def partitionColon : Str → Str × Bool
+  | [] => ([], false)
+  | c :: cs => if c = ':' then ([], true) else let (p, b) := partitionColon cs; (c :: p, b)
+
+/-- `_validate_xml_name`: `is_xml_tag(name)` and, if there is a colon, the part before the first
+    colon is `xml`, `xmlns` or a declared prefix -/
+def nameValid (scope : List Str) (name : Str) : Bool :=
+  Pyxv.Rows.isXmlTag name &&
+  (match partitionColon name with
+   | (p, true) => p = "xml".toList || p = "xmlns".toList || scope.contains p
+   | (_, false) => true)
+
+/-- `name.startswith("xmlns:")` → the prefix `name[len("xmlns:"):]` -/
+def pyDeclared (kv : Str × Str) : Option Str :=
+  if startsWith kv.1 xmlnsColon then some (kv.1.drop 6) else none
+
+/-- a namespace declaration is accepted: non-empty value, prefix neither `xml` nor `xmlns` -/
+def pyDeclOk (kv : Str × Str) : Bool :=
+  match pyDeclared kv with
+  | some p => !kv.2.isEmpty && p != "xml".toList && p != "xmlns".toList
+  | none => true
+
+mutual
+/-- `validate_xml_document(element, declared)` does not raise -/
+def validDoc (declared : List Str) : Node → Bool
+  | .text _ s => s.all isXmlChar
+  | .elem t a ks =>
+    let scope := a.filterMap pyDeclared ++ declared
+    a.all pyDeclOk && nameValid scope t &&
+    a.all (fun kv => nameValid scope kv.1 && kv.2.all isXmlChar) && validKids scope ks
+def validKids (declared : List Str) : List Node → Bool
+  | [] => true
+  | k :: ks => validDoc declared k && validKids declared ks
+end
 
 /-! ## Observation for the correspondence: the frame of a document -/
 
